@@ -508,4 +508,21 @@ def run_vector(vec):
         finally:
             DIMOBJ = DIMSETS[0]
             DIMS = DimensionSet(dim_list=[DIMOBJ[l] for l in CANON])
+    elif not problems and vec["op"] == "lines" and vec["intra"] == "t" and len(json.dumps(vec, sort_keys=True)) % 3 == 1:
+        # the dimension along the lines holds NUMPY scalars as items (list(np.arange(...)) is a common way to write years):
+        # the x-data are still that dimension's items
+        DIMOBJ = dict(DIMSETS[0], t=Dimension(name="Time", letter="t", items=list(np.array([1990, 2005]))))
+        DIMS = DimensionSet(dim_list=[DIMOBJ[l] for l in CANON])
+        try:
+            problems = ["[time items are numpy integers] " + p for p in fn(vec)]
+        finally:
+            DIMOBJ = DIMSETS[0]
+            DIMS = DimensionSet(dim_list=[DIMOBJ[l] for l in CANON])
+    elif not problems and vec["op"] == "export" and len(json.dumps(vec, sort_keys=True)) % 3 == 1:
+        # the same system under other NAMES (names are opaque): two processes whose names differ only in an accented letter, and the
+        # opposing flow named by the arrow rule - one file per flow must still be written, every name spelled as given
+        import re
+        txt = json.dumps(vec, ensure_ascii=False).replace("B: back (to use)", "B => use phase").replace("use phase", "Müller GmbH")
+        txt = re.sub(r"\bB\b", "Möller GmbH", txt)
+        problems = ["[process names Müller GmbH / Möller GmbH] " + p for p in fn(json.loads(txt))]
     return problems
